@@ -1396,7 +1396,7 @@ class Interp:
         return out
 
     ALLOC_FUNCS = {"numpy.zeros": 0, "numpy.ones": 1, "numpy.empty": None, "numpy.full": "fill", "numpy.zeros_like": 0,
-                   "numpy.array": "data", "numpy.empty_like": None}
+                   "numpy.array": "data", "numpy.asarray": "data", "numpy.empty_like": None}
 
     def call_builtin(self, name: str, args: List[Any], kwargs, st: State, node: ast.Call) -> List[Tuple[State, Any]]:
         nm = name
@@ -1480,6 +1480,13 @@ class Interp:
             if meth == "copy":
                 v = self.fresh_root("copy", ("copy", recv))
                 st.heap.append(Store(v.root, (), recv))
+                return [(st, v)]
+            if meth == "astype":
+                # a conversion: a fresh array holding the same data (modelled like np.array(recv, dtype=...))
+                kw = tuple(kwargs) + ((("dtype", args[0]),) if args else ())
+                v = self.fresh_root("astype", ("alloc", "numpy.array", (recv,), kw))
+                st.heap.append(Store(v.root, (), recv))
+                mev.ret = v
                 return [(st, v)]
             if meth in ("append", "extend", "insert", "sort", "pop", "remove", "clear", "put", "update", "add", "setdefault"):
                 # mutation of a python-level container / queue
